@@ -446,3 +446,43 @@ def ob_failed_resolution(shape: int, c0: bool, a0: bool, a1: bool, twice: bool) 
     if calls["f0"] != out["built_in_failed"] + n_good:
         return False
     return len({id(v) for v in out["vals"]}) == n_good
+
+
+# ------------------------------------------------------------------------------------------------ factories with string annotations
+import vlib.h_res_strings as _RS  # noqa: E402
+
+
+@obligation(quick=60, thorough=120,
+            what="factories annotated under `from __future__ import annotations` (dependency descriptors are rebuilt on every look-up): a "
+                 "genuine two-factory cycle is reported as a circular dependency (a ValueError naming it — not a RecursionError, not a "
+                 "result), cached or not; an acyclic chain written the same way resolves, the cached leaf once",
+            bounds={"graphs": "a <-> b (cached / non-cached), top -> leaf", "start": "either factory"})
+def ob_string_annotated_factories(which: int, cached: bool) -> bool:
+    """
+    pre: 0 <= which <= 2
+    post: _
+    """
+    which = 0 if which == 0 else (1 if which == 1 else 2)
+    cached = True if cached else False
+    m = ResourceManager()
+    del _RS.CALLS[:]
+    if which == 2:
+        async def ok():
+            r1 = await m.get(Resource(_RS.chain_top))
+            r2 = await m.get(Resource(_RS.chain_top))
+            return r1, r2
+        loop = SymLoop()
+        r1, r2 = loop.run_until_complete(ok())
+        return r1 is r2 and r1[1] == ("leaf",) and _RS.CALLS.count("leaf") == 1 and _RS.CALLS.count("top") == 1
+    fac = (_RS.cyc_a if which == 0 else _RS.cyc_b) if cached else (_RS.cyc_a_nc if which == 0 else _RS.cyc_b_nc)
+
+    async def cyc():
+        try:
+            await m.get(Resource(fac, cache=cached))
+        except ValueError as e:
+            return "Circular" in str(e)
+        except RecursionError:
+            return False
+        return False
+
+    return bool(SymLoop().run_until_complete(cyc()))
